@@ -7,7 +7,8 @@ import itertools
 from .. import lek
 from ..astq import U, calls, call_name, fn_walk, self_attr, stmt_key, walk
 from ..cfg import CFG
-from ..interp import Obj, Raised, Sym, Undecided
+from ..absbase import FinamInterp, Logger
+from ..interp import Closure, Obj, Raised, Sym, Undecided
 from ..loader import AnalysisError, body_of
 from ..schedmodel import SchedInterp, Topo, data_path_term
 
@@ -648,27 +649,9 @@ def r09_structure(repo, sink):
 
 # =========================================================================== R05
 def r05_select(repo, sink):
+    """Selection and termination of the run loop are decided by the abstract runs of
+    r05s_run_selection (scripted scheduling steps); here: who may call IComponent.update."""
     f = repo.method("Composition", "run")
-    fn = f.node
-    cfg = CFG(fn)
-    loops = [n for n in fn_walk(fn) if isinstance(n, ast.While)]
-    upd = [c for c in calls(fn, "_update_recursive")]
-    if len(loops) != 1 or not upd:
-        raise AnalysisError("Composition.run: expected one scheduling loop calling _update_recursive")
-    loop = loops[0]
-    in_loop = [c for c in upd if any(c is x for x in ast.walk(loop))]
-    sink.check(len(in_loop) == 1 and len(upd) == 1, "R05", "one-step-per-iteration", f,
-               ok="exactly one _update_recursive call per loop iteration",
-               bad=f"{len(upd)} _update_recursive call sites ({len(in_loop)} in the loop)")
-    call = in_loop[0] if in_loop else upd[0]
-    arg = call.args[0] if call.args else None
-    sel = _argmin_of_time(fn, loop, arg)
-    if isinstance(sel, str) and sel.startswith("?"):
-        sink.unknown("R05", "select-least-time", f, f"selection idiom not in the accepted-idiom table: {sel[1:]}")
-    else:
-        sink.check(sel is True, "R05", "select-least-time", f,
-                   ok="component handed to the step is an arg-min of `time` over the time components",
-                   bad=f"selection is not an arg-min of time: {sel}")
     # who-may-call: IComponent.update
     sites = []
     for m in repo.modules.values():
@@ -684,8 +667,7 @@ def r05_select(repo, sink):
                ok="IComponent.update() has exactly one call site, in Composition._update_recursive",
                bad=f"update() call sites: {comp_sites + other}")
     sink.floor("R05", "update call sites", len(comp_sites), 1, f)
-    # termination test guards the back edge
-    _r05_termination(repo, sink, f, fn, loop, cfg, call)
+    r05s_run_selection(repo, sink)
 
 
 def _argmin_of_time(fn, loop, arg):
@@ -958,3 +940,131 @@ def _clock_store(s):
 
 def _stores_name(fn_node, name):
     return any(isinstance(n, ast.Name) and n.id == name and isinstance(n.ctx, (ast.Store, ast.Del)) for n in fn_walk(fn_node))
+
+
+# =========================================================================== R05s
+class _StopRun(Exception):
+    pass
+
+
+class _RunInterp(FinamInterp):
+    """Abstract run of Composition.run: component times are integers (rank labels of a total
+    order), the scheduling step is scripted (advances the selected component and, before it, the
+    dependencies it lags behind)."""
+
+    def __init__(self, repo, script):
+        super().__init__(repo)
+        self.script = script  # name -> dict(step, deps, finish_at)
+        self.selected = []  # (name, {name: (time, finished)} before the step)
+        self.finalized = 0
+
+    def ext_isinstance(self, v, name, node):
+        if name == "datetime":
+            return isinstance(v, int) and not isinstance(v, bool)
+        return super().ext_isinstance(v, name, node)
+
+    def _advance(self, c):
+        sc = self.script[c.label]
+        c.fields["time"] += sc["step"]
+        fin = sc.get("finish_at")
+        c.fields["status"] = Sym("enum", "ComponentStatus", "FINISHED" if fin is not None and c.fields["time"] >= fin else "UPDATED")
+
+    def call_hook(self, fv, args, kwargs, node, mod):
+        if isinstance(fv, Closure) and fv.self_obj is not None and fv.self_obj.label == "composition":
+            n = getattr(fv.func, "name", "")
+            if n == "_update_recursive":
+                c = args[0]
+                comps = self.comps
+                before = {k: (v.fields["time"], v.fields["status"].args[1] == "FINISHED") for k, v in comps.items()}
+                self.selected.append((c.label, before))
+                alive = {k: tm for k, (tm, fin) in before.items() if not fin}
+                if before[c.label][1] or (alive and before[c.label][0] != min(alive.values())) or len(self.selected) > 200:
+                    raise _StopRun()  # judged by the rule: wrong selection / no termination
+                target = c.fields["time"] + self.script[c.label]["step"]
+                for d in self.script[c.label].get("deps", ()):
+                    dep = comps[d]
+                    while dep.fields["time"] < target and dep.fields["status"].args[1] != "FINISHED":
+                        self._advance(dep)
+                self._advance(c)
+                return c
+            if n in ("connect", "_check_status"):
+                return None
+            if n in ("_finalize_components", "_finalize_composition"):
+                self.finalized += 1
+                return None
+        return super().call_hook(fv, args, kwargs, node, mod)
+
+
+def r05s_run_selection(repo, sink):
+    """Every scheduling step of run() starts from a least-advanced unfinished time component,
+    and the loop ends exactly when every component is finished or has reached the end time."""
+    from ..absbase import seed_from_init
+    comp_cls = repo.cls("Composition")
+    run = repo.resolve(comp_cls, "run", "method")
+    scenarios = {
+        "independent": ({"A": dict(t=0, step=2), "B": dict(t=0, step=3), "C": dict(t=1, step=5)}, 12),
+        "upstream-overtakes-third": ({"A": dict(t=0, step=1, deps=("B",)), "B": dict(t=5, step=10), "C": dict(t=6, step=3)}, 15),
+        "chain-and-bystander": ({"A": dict(t=0, step=4, deps=("B",)), "B": dict(t=0, step=1, deps=("C",)), "C": dict(t=0, step=6), "D": dict(t=2, step=3)}, 14),
+        "one-finishes-early": ({"A": dict(t=0, step=1, finish_at=3), "B": dict(t=0, step=2)}, 8),
+        "last-below-end-finishes-early": ({"A": dict(t=0, step=1, finish_at=3), "B": dict(t=0, step=10)}, 8),
+        "single-component-finishes-early": ({"A": dict(t=0, step=2, finish_at=4)}, 9),
+        "listed-in-reverse": ({"C": dict(t=4, step=2), "B": dict(t=2, step=2), "A": dict(t=0, step=5)}, 10),
+    }
+    worst, steps = None, 0
+    for name, (spec, end) in scenarios.items():
+        t = Topo(repo)
+        comps = {}
+        for k, v in spec.items():
+            c = t.comp(k)
+            c.fields["time"] = v["t"]
+            c.fields["status"] = Sym("enum", "ComponentStatus", "VALIDATED")
+            comps[k] = c
+        it = _RunInterp(repo, spec)
+        it.comps = comps
+        me = Obj(cls=comp_cls, label="composition")
+        seed_from_init(it, comp_cls, me, {"components": list(comps.values())})
+        me.fields["logger"] = Logger(label="logger")
+        it.max_loop = 1000
+        stopped = False
+        try:
+            it.run(run, [], {"start_time": 0, "end_time": end}, self_obj=me)
+        except _StopRun:
+            stopped = True
+        except Raised as r:
+            worst = worst or f"scenario {name}: run raises {r.name}"
+            continue
+        except (Undecided, AnalysisError) as exc:
+            sink.unknown("R05", "run-selection", run, f"scenario {name}: run outside vocabulary: {exc}")
+            return
+        steps += len(it.selected)
+        for i, (sel, before) in enumerate(it.selected):
+            alive = {k: tm for k, (tm, fin) in before.items() if not fin}
+            if not alive:
+                worst = worst or f"scenario {name}, step {i}: a step is started although every component is finished"
+                break
+            least = min(alive.values())
+            if before[sel][1] or before[sel][0] != least:
+                who = sorted(k for k, tm in alive.items() if tm == least)
+                worst = worst or (f"scenario {name}, step {i}: {sel} (time {before[sel][0]}{', finished' if before[sel][1] else ''}) is selected although "
+                                  f"{'/'.join(who)} is less advanced (time {least}); times before the step: "
+                                  f"{ {k: v[0] for k, v in before.items()} }")
+                break
+        if stopped and worst is None:
+            worst = f"scenario {name}: the run loop is still scheduling after {len(it.selected)} steps (it should have ended long ago)"
+        if stopped:
+            continue
+        final = {k: (c.fields["time"], c.fields["status"].args[1] == "FINISHED") for k, c in comps.items()}
+        lag = sorted(k for k, (tm, fin) in final.items() if not fin and tm < end)
+        if lag:
+            worst = worst or f"scenario {name}: run returns while {lag} are neither finished nor at the end time {end} (times {final})"
+        for i, (_sel, before) in enumerate(it.selected):
+            if not any((not fin) and tm < end for tm, fin in before.values()):
+                worst = worst or (f"scenario {name}, step {i}: a further step is started although every component already was finished or at the "
+                                  f"end time {end} (times/finished before the step: {before})")
+                break
+        if it.finalized < 1:
+            worst = worst or f"scenario {name}: run returns without finalizing"
+    sink.check(worst is None, "R05", "run-selection", run,
+               ok=f"{len(scenarios)} scripted runs, {steps} scheduling steps: each starts from a least-advanced unfinished component; the loop ends when all "
+                  "are finished or at the end time",
+               bad=worst or "")
